@@ -63,6 +63,7 @@ PROPS = {
     "C01": {
         "level": "proof",
         "extract": ["Message", "Basic"],
+        "extra_modules": ["QiVerif.Props.C01Write"],
         "rule": "random header fields (boundary-biased), payload lengths 0..4 KiB (64 KiB / 1 MiB thorough), "
                 "1-20 messages per stream, 7 fragmentation strategies, optional data+EOF last read, trailing bytes, "
                 "invalid magic/version/type/size; a case is non-trivial when it contains at least one full header and "
@@ -347,7 +348,7 @@ PROPS = {
         "level": "proof",
         "race": True,
         "extract": ["Signals", "Client"],
-        "extra_modules": ["QiVerif.Props.C13Emit"],
+        "extra_modules": ["QiVerif.Props.C13Emit", "QiVerif.Props.C13Loop", "QiVerif.Tie.UpdateLoop"],
         "rule": "a real server with the generated PingPong stub (signal pong) and 1-3 real clients (bus.Client + "
                 "Proxy.SubscribeID) over in-memory connections whose client-to-server direction the script can hold and "
                 "release; random scripts of subscribe / cancel / emit / other traffic / hold / release / observe (8-26 "
@@ -372,7 +373,7 @@ PROPS = {
         "level": "proof",
         "race": True,
         "extract": ["Property"],
-        "extra_modules": ["QiVerif.Props.C14Events"],
+        "extra_modules": ["QiVerif.Props.C14Events", "QiVerif.Props.C13Loop", "QiVerif.Tie.UpdateLoop"],
         "rule": "two real objects on a real server — the generated Bomb stub (delay: int32, validator) and a hand-written "
                 "object behind the generic object dispatcher with an int32, a string and a float property and its own "
                 "change callback — driven through a session: setProperty by name / by id / with a boolean as name / unknown "
